@@ -246,7 +246,25 @@ def verify_directory(ctx):
     wl = [n for n in walk_func(fn) if isinstance(n, ast.While)]
     if not wl:
         mk = [c for c in walk_func(fn) if isinstance(c, ast.Call) and dotted(c.func) in ("os.makedirs", "os.mkdir")]
-        tolerant = any(any(k.arg == "exist_ok" and const(k.value) is True for k in c.keywords) for c in mk) or any(in_try_handling_(c) for c in mk)
+        def rechecks(c):
+            """a failed creation is followed by another look at the directory (another process may just have made it) before giving up"""
+            for a in ancestors(c):
+                if isinstance(a, ast.Try) and any(contains(b, c) or b is c for b in a.body):
+                    for h in a.handlers:
+                        tn = [dotted(t) for t in (h.type.elts if isinstance(h.type, ast.Tuple) else [h.type])] if h.type is not None else []
+                        if tn == ["FileExistsError"] and not any(isinstance(x, ast.Raise) for x in ast.walk(h)):
+                            return True
+                        if any(isinstance(x, ast.Call) and (dotted(x.func) or "").split(".")[-1] in ("exists", "isdir") for x in ast.walk(h)):
+                            return True
+                    # ... or by the condition of the loop that retries
+                    for l in ancestors(a):
+                        if isinstance(l, ast.While) and any(isinstance(x, ast.Call) and (dotted(x.func) or "").split(".")[-1] in ("exists", "isdir") for x in ast.walk(l.test)):
+                            return True
+                        if isinstance(l, (ast.For, ast.While)) and any(isinstance(i, ast.If) and any(isinstance(x, ast.Call) and (dotted(x.func) or "").split(".")[-1] in ("exists", "isdir") for x in ast.walk(i.test)) for i in l.body):
+                            return True
+                    return False
+            return False
+        tolerant = any(any(k.arg == "exist_ok" and const(k.value) is True for k in c.keywords) for c in mk) or (bool(mk) and all(in_try_handling_(c) and rechecks(c) for c in mk))
         ctx.check(tolerant, "concurrent-creation", db.where(fn), "verify_directory checks for the directory and then creates it with no tolerance for a concurrent creator: of several processes constructing the same Template all but one fail with FileExistsError", "makedirs tolerates an existing directory")
         ctx.ok("bounded", db.where(fn), "no retry loop")
         return
